@@ -85,13 +85,13 @@ def install():
     from pams.fundamentals import Fundamentals
 
     def mk_add(orig):
-        def _add_order(self, order):
+        def _add_order(self, order, *a, **kw):
             hits["add"] += 1
             if not _sinks:
-                return orig(self, order)
+                return orig(self, order, *a, **kw)
             emit("add_call", mkt=self, order=order, snap=snap_order(order), time=self.time, running=self.is_running)
             try:
-                log = orig(self, order)
+                log = orig(self, order, *a, **kw)
             except BaseException as e:
                 emit("add_exc", mkt=self, order=order, exc=e, snap=snap_order(order))
                 raise
@@ -101,14 +101,14 @@ def install():
         return _add_order
 
     def mk_cancel(orig):
-        def _cancel_order(self, cancel):
+        def _cancel_order(self, cancel, *a, **kw):
             hits["cancel"] += 1
             if not _sinks:
-                return orig(self, cancel)
+                return orig(self, cancel, *a, **kw)
             emit("cancel_call", mkt=self, cancel=cancel, order=cancel.order, snap=snap_order(cancel.order),
                  cancel_placed_at=cancel.placed_at, time=self.time, running=self.is_running)
             try:
-                log = orig(self, cancel)
+                log = orig(self, cancel, *a, **kw)
             except BaseException as e:
                 emit("cancel_exc", mkt=self, cancel=cancel, order=cancel.order, exc=e)
                 raise
@@ -119,13 +119,13 @@ def install():
         return _cancel_order
 
     def mk_exec(orig):
-        def _execution(self):
+        def _execution(self, *a, **kw):
             hits["exec"] += 1
             if not _sinks:
-                return orig(self)
+                return orig(self, *a, **kw)
             emit("exec_call", mkt=self, time=self.time, running=self.is_running)
             try:
-                logs = orig(self)
+                logs = orig(self, *a, **kw)
             except BaseException as e:
                 emit("exec_exc", mkt=self, exc=e, time=self.time, running=self.is_running)
                 raise
@@ -135,13 +135,13 @@ def install():
         return _execution
 
     def mk_update_time(orig):
-        def _update_time(self, next_fundamental_price):
+        def _update_time(self, next_fundamental_price, *a, **kw):
             hits["update_time"] += 1
             if not _sinks:
-                return orig(self, next_fundamental_price)
+                return orig(self, next_fundamental_price, *a, **kw)
             emit("time_call", mkt=self, time=self.time, running=self.is_running, fund=next_fundamental_price)
             try:
-                r = orig(self, next_fundamental_price)
+                r = orig(self, next_fundamental_price, *a, **kw)
             except BaseException as e:
                 emit("time_exc", mkt=self, exc=e)
                 raise
@@ -156,24 +156,24 @@ def install():
     _wrap(Market, "_update_time", mk_update_time)
 
     def mk_update_times(orig):
-        def _update_times_on_markets(self, markets):
+        def _update_times_on_markets(self, markets, *a, **kw):
             hits["update_times"] += 1
             if not _sinks:
-                return orig(self, markets)
+                return orig(self, markets, *a, **kw)
             emit("times_call", sim=self)
-            r = orig(self, markets)
+            r = orig(self, markets, *a, **kw)
             emit("times_ret", sim=self)
             return r
 
         return _update_times_on_markets
 
     def mk_update_agents(orig):
-        def _update_agents_for_execution(self, execution_logs):
+        def _update_agents_for_execution(self, execution_logs, *a, **kw):
             hits["update_agents"] += 1
             if not _sinks:
-                return orig(self, execution_logs)
+                return orig(self, execution_logs, *a, **kw)
             emit("holdings_call", sim=self, logs=execution_logs)
-            r = orig(self, execution_logs)
+            r = orig(self, execution_logs, *a, **kw)
             emit("holdings_ret", sim=self, logs=execution_logs)
             return r
 
@@ -212,13 +212,13 @@ def install():
         _wrap(Simulator, "_trigger_event_" + kind, mk_trigger(kind))
 
     def mk_genlog(orig):
-        def _generate_log_return(self, generate_target_ids, length):
+        def _generate_log_return(self, generate_target_ids, length, *a, **kw):
             hits["gen_log_return"] += 1
             if not _sinks:
-                return orig(self, generate_target_ids, length)
+                return orig(self, generate_target_ids, length, *a, **kw)
             emit("genlr_call", fund=self, ids=list(generate_target_ids), length=length,
                  generated_until=self._generated_until)
-            r = orig(self, generate_target_ids, length)
+            r = orig(self, generate_target_ids, length, *a, **kw)
             emit("genlr_ret", fund=self, ids=list(generate_target_ids), length=length, ret=r)
             return r
 
